@@ -34,7 +34,7 @@ struct Th { pthread_t tid; sem_t go; int state = 0; /*0 new 1 enabled 2 blocked 
 struct Core {
     bool active = false; int n = 0; std::vector<Th *> th; int running = -1;
     std::vector<int> prefix; size_t pos = 0; Trace tr;
-    bool scripted = false; std::vector<int> script; size_t spos = 0; std::set<std::string> relevant; /* directed replay of a model trace: one thread id per model step */ std::map<const void *, int> owner; sem_t done; bool record_events = false;
+    bool scripted = false; std::vector<int> script; size_t spos = 0; std::set<std::string> relevant; /* directed replay of a model trace: one thread id per model step */ std::map<const void *, int> owner; sem_t done; bool record_events = false; bool libm_points = false;
 };
 inline Core &C() { static Core c; return c; }
 inline thread_local int t_id = -1;
@@ -172,8 +172,8 @@ WRAP_VOID(fftw_destroy_plan, sched::PLANNER, (void *p), (p))
 void *fftw_plan_dft_r2c_1d(int n, double *in, void *out, unsigned flags) { static void *(*real)(int, double *, void *, unsigned) = (void *(*)(int, double *, void *, unsigned))dlsym(RTLD_NEXT, "fftw_plan_dft_r2c_1d"); sched::point("fftw_plan_dft_r2c_1d:pre", sched::PLANNER); void *r = real(n, in, out, flags); sched::leave("planned"); sched::point("fftw_plan_dft_r2c_1d:post", 0); return r; }
 void *fftw_plan_dft_c2r_1d(int n, void *in, double *out, unsigned flags) { static void *(*real)(int, void *, double *, unsigned) = (void *(*)(int, void *, double *, unsigned))dlsym(RTLD_NEXT, "fftw_plan_dft_c2r_1d"); sched::point("fftw_plan_dft_c2r_1d:pre", sched::PLANNER); void *r = real(n, in, out, flags); sched::leave("planned"); sched::point("fftw_plan_dft_c2r_1d:post", 0); return r; }
 // coarse points inside long initialisation loops (trigonometric tables are filled with thousands of libm calls): every 256th call of a thread
-double cos(double x) noexcept { static double (*real)(double) = (double (*)(double))dlsym(RTLD_NEXT, "cos"); static thread_local unsigned cnt = 0; if (sched::managed() && (++cnt & 255) == 0) sched::point("libm", 0); return real(x); }
-double sin(double x) noexcept { static double (*real)(double) = (double (*)(double))dlsym(RTLD_NEXT, "sin"); static thread_local unsigned cnt = 0; if (sched::managed() && (++cnt & 255) == 0) sched::point("libm", 0); return real(x); }
+double cos(double x) noexcept { static double (*real)(double) = (double (*)(double))dlsym(RTLD_NEXT, "cos"); static thread_local unsigned cnt = 0; if (sched::managed() && sched::C().libm_points && (++cnt & 255) == 0) sched::point("libm", 0); return real(x); }
+double sin(double x) noexcept { static double (*real)(double) = (double (*)(double))dlsym(RTLD_NEXT, "sin"); static thread_local unsigned cnt = 0; if (sched::managed() && sched::C().libm_points && (++cnt & 255) == 0) sched::point("libm", 0); return real(x); }
 // API entry points that touch per-thread scratch or temporarily modify their input
 struct TorusPolynomial; struct IntPolynomial; struct LagrangeHalfCPolynomial; struct TGswParams;
 WRAP_VOID(tGswTorus32PolynomialDecompH, 0, (IntPolynomial *r, const TorusPolynomial *s, const TGswParams *p), (r, s, p))
